@@ -958,10 +958,16 @@ func msgClass(m string) string {
 }
 
 // jsonFeature names the most telling JSON-relevant feature of a value (refines signatures).
-func jsonFeature(v hs.Value) string {
+func jsonFeature(v hs.Value) string { return jsonFeats(v, false) }
+
+// jsonFeatures lists every feature present (used where the failing site is not known).
+func jsonFeatures(v hs.Value) string { return jsonFeats(v, true) }
+
+func jsonFeats(v hs.Value, all bool) string {
 	if v == nil {
 		return "absent"
 	}
+	var found []string
 	feats := []struct {
 		name string
 		pred func(hs.Value) bool
@@ -1020,10 +1026,17 @@ func jsonFeature(v hs.Value) string {
 	}
 	for _, f := range feats {
 		if hasKind(v, f.pred) {
-			return f.name
+			if !all {
+				return f.name
+			}
+			found = append(found, f.name)
 		}
 	}
-	return "plain"
+	if len(found) == 0 {
+		return "plain"
+	}
+	sort.Strings(found)
+	return strings.Join(found, "+")
 }
 
 type jsonRoute struct {
@@ -1444,7 +1457,7 @@ func multiKey(v hs.Value) bool {
 func checkJSONProg(c JSONProgCase) *pk.Failure {
 	resp := px.Pool().Exec(c.Prog.Request("vm", "tree"))
 	if f := px.SandboxFailure("json-prog", resp); f != nil {
-		f.Sig = "json-prog:" + f.Sig + ":" + jsonFeature(c.V.V)
+		f.Sig = "json-prog:" + f.Sig + ":" + jsonFeatures(c.V.V)
 		f.Msg += "\n" + px.ProgText(c.Prog)
 		return f
 	}
@@ -1475,11 +1488,11 @@ func checkJSONProg(c JSONProgCase) *pk.Failure {
 			msg = run.Outcome.Message
 		}
 		if len(secs) < 3 {
-			return pk.Failf("json-prog", fmt.Sprintf("json-prog:%s:as-cast:%s/%s:%s:%s", be, cls, kind, msgClass(msg), jsonFeature(c.V.V)),
+			return pk.Failf("json-prog", fmt.Sprintf("json-prog:%s:as-cast:%s/%s:%s:%s", be, cls, kind, msgClass(msg), jsonFeatures(c.V.V)),
 				"[%s] `v.to_json().parse_json() as T` did not complete: %s/%s %q, output %q\n%s", be, cls, kind, run.Outcome.Message, strings.Join(run.Writes, ""), ctx)
 		}
 		if secs[0] != "true\n" {
-			return pk.Failf("json-prog", fmt.Sprintf("json-prog:%s:as-cast:unequal:%s", be, jsonFeature(c.V.V)),
+			return pk.Failf("json-prog", fmt.Sprintf("json-prog:%s:as-cast:unequal:%s", be, jsonFeatures(c.V.V)),
 				"[%s] v == (v.to_json().parse_json() as T) printed %q\n%s", be, secs[0], ctx)
 		}
 		shown[be] = secs[1]
